@@ -277,3 +277,35 @@ pub fn forge_dh_public() -> Vec<u8> {
     .map(|p| p.as_ref().to_vec())
     .unwrap_or_default()
 }
+
+/// The other key agreement algorithm of DDS Security 9.3.2.5 ("DH+MODP-2048-256": the 2048-bit MODP group with
+/// 256-bit prime order subgroup of RFC 5114 section 2.3), as an initiator of another implementation may choose
+/// it: a key pair in that group, and SHA-256 of the agreed value as the shared secret.
+pub struct ModpKey(openssl::dh::Dh<openssl::pkey::Private>);
+impl ModpKey {
+  pub fn generate() -> Result<ModpKey, String> {
+    openssl::dh::Dh::get_2048_256().and_then(|p| p.generate_key()).map(ModpKey).map_err(|e| format!("{e}"))
+  }
+  pub fn public(&self) -> Vec<u8> {
+    self.0.public_key().to_vec()
+  }
+  pub fn shared_secret(&self, peer_public: &[u8]) -> Result<Vec<u8>, String> {
+    let peer = openssl::bn::BigNum::from_slice(peer_public).map_err(|e| format!("{e}"))?;
+    let k = self.0.compute_key(&peer).map_err(|e| format!("{e}"))?;
+    Ok(ring::digest::digest(&ring::digest::SHA256, &k).as_ref().to_vec())
+  }
+  /// is `x` an element of the order-q subgroup (x^q mod p == 1, 1 < x < p - 1)?
+  pub fn in_subgroup(&self, x: &[u8]) -> bool {
+    let mut ctx = match openssl::bn::BigNumContext::new() {
+      Ok(c) => c,
+      Err(_) => return false,
+    };
+    let (p, q) = (self.0.prime_p(), self.0.prime_q());
+    let x = match openssl::bn::BigNum::from_slice(x) {
+      Ok(x) => x,
+      Err(_) => return false,
+    };
+    let (Some(q), Ok(mut r)) = (q, openssl::bn::BigNum::new()) else { return false };
+    r.mod_exp(&x, q, p, &mut ctx).is_ok() && r == openssl::bn::BigNum::from_u32(1).unwrap() && x > openssl::bn::BigNum::from_u32(1).unwrap()
+  }
+}
